@@ -1024,6 +1024,12 @@ class Flow:
                 return {recv: None}
             if meth in ('index', 'count'):
                 return {INT: None}
+            if k == 'set' and meth in ('union', 'intersection', 'difference', 'symmetric_difference'):
+                s2 = self.site(f, e, 'set')
+                self.add(('E', s2), self.get(('E', site)), 'set.%s' % meth)
+                for i, a in enumerate(args):
+                    self.add(('E', s2), self.elements(self.elements(a)) if isinstance(e.args[i], ast.Starred) else self.elements(a), 'set.%s' % meth)
+                return {('set', s2): None}
             return {NONE: None}
         if k == 'tuple':
             return {INT: None}
